@@ -52,7 +52,8 @@ PROPS = {
         level='model_checking', design_ref='5/C03', oracle='C03',
         technique='explicit-state exploration of start/stop/process_event/enqueue histories; entry/exit ledger vs every introspection API at every quiescent state',
         quick=[S(z, ops=pe_all(z) + ['eq:1', 'xq'], introspect=True) for z in ('ortho', 'hier2', 'hier3', 'entry', 'histS')] +
-              [S('orthoA', cfgs=['b', 'b11', 'm', 'mc'], introspect=True)],     # a root machine with a history policy: stop / start again
+              [S('orthoA', cfgs=['b', 'b11', 'm', 'mc'], introspect=True),      # a root machine with a history policy: stop / start again
+               S('hier4', cfgs=['b', 'm', 'mf'], introspect=True)],              # four machine levels: is_state_active asked on the root (own-m01)
         thorough=[S(z, ops=pe_all(z) + ['eq:1', 'eq:2', 'xq', 'xs'], introspect=True) for z in ('ortho', 'hier2', 'hier3', 'entry', 'histN', 'histA', 'histS', 'flat')] +
                  [S('block', ops=pe_all('block') + ['eq:4', 'xq'], introspect=True), S('compl', ops=pe_all('compl') + ['eq:4', 'xq'], introspect=True),
                   S('orthoA', introspect=True), S('orthoS', introspect=True), S('wide', introspect=True), S('hier4', introspect=True)],
